@@ -1177,6 +1177,8 @@ class VM:
         RT = refed.add_enc(bytes(R), refed.base_mul_enc(te))
         if refed.point_equal(refed.point_decompress(RT), refed.IDENT):
             raise Unspec('R + T is the identity')
+        if int.from_bytes(sa, 'little') + te >= 1 << 256:
+            raise Unspec('scalar sum of non-reduced inputs overflows 256 bits')
         s = refed.sc_enc(int.from_bytes(sa, 'little') + te)
         if self.flag(7):
             self.cache[b'RT'] = RT
